@@ -12,6 +12,7 @@ import progcheck
 sys.path.insert(0, os.path.join(vlib.VERIF, "gen"))
 import render  # noqa: E402
 import replhist  # noqa: E402
+import replsess  # noqa: E402
 
 META = {
     "title": "Interactive evaluation equals batch evaluation",
@@ -69,6 +70,15 @@ def judge(h, res):
     """Compare one run of the loop with the session Repl.tla computed for history h.  None = conforms."""
     toks, flags = replhist.loop_tokens(res["out"])
     exp = replhist.expected_tokens(h["hist"], h["out"], with_timing=flags["timing"])
+    return judge_tokens(exp, res, toks, flags)
+
+
+def judge_tokens(exp, res, toks=None, flags=None):
+    """Compare one run of the loop with the specified projection exp (a list of ("M", line) | ("G",) | ("T",))."""
+    if toks is None:
+        toks, flags = replhist.loop_tokens(res["out"])
+        if not flags["timing"]:
+            exp = [t for t in exp if t[0] != "T"]
     if res["timeout"] or res.get("spun"):
         return ("loop-hang", "no end of session within the time bound (%s)" % ("processor time" if res.get("spun") else "wall clock"), toks, exp)
     if flags["fault"] or (res["rc"] is not None and res["rc"] < 0) or not flags["ready"]:
@@ -278,6 +288,90 @@ def run_family(chk, b, wd, prefix, name, progs, batch_exp, verbose_every, layout
             h = hh[len(hh) // 2]
             chk.sample({"history": hist_sig(h), "input": replhist.render_history(p, h["hist"])[0][-1500:],
                         "expected_out": render.expected_text(h["out"])[:300]})
+
+
+def run_sessions(chk, b, wd, prefix, per_route, name, recs):
+    """recs: [{"id", "text", "exp", "shapes", "label", "key", "nontrivial"}].  Every text is piped to a fresh loop and its
+    projection must equal exp (specified by the TLC run the record comes from)."""
+    dd = os.path.join(wd, name)
+    os.makedirs(dd, exist_ok=True)
+
+    def do(rec):
+        res = run_loop(b, rec["text"], dd, prefix)
+        v = judge_tokens(rec["exp"], res)
+        if v is not None and v[0] == "loop-hang" and not res["spun"]:
+            res = run_loop(b, rec["text"], dd, prefix, timeout=400)      # a loaded machine is not a hang
+            v = judge_tokens(rec["exp"], res)
+        res["verdict"] = v
+        return res
+    with concurrent.futures.ThreadPoolExecutor(max_workers=vlib.NCPU) as ex:
+        results = list(ex.map(do, recs))
+    for rec, res in zip(recs, results):
+        st = per_route.setdefault(rec["label"], {"runs": 0, "bad": 0})
+        st["runs"] += 1
+        chk.case((name, rec["id"], rec["label"]), nontrivial=rec.get("nontrivial", True))
+        v = res["verdict"]
+        if v is None:
+            continue
+        st["bad"] += 1
+        kindv, what, toks, exp = v
+        key = {"kind": kindv, "route": "loop", "shapes": rec["shapes"]}
+        key.update(rec.get("key", {}))
+        chk.violation("%s on %s: session %s: %s" % (kindv, rec["label"], rec["id"], what),
+                      {"session": rec["id"], "kind": kindv, "route": rec["label"], "shapes": rec["shapes"],
+                       "input": rec["text"], "stdout": res["out"][-6000:], "stderr": res["err"][-1000:], "rc": res["rc"],
+                       "observed_projection": toks, "specified_projection": exp}, key=key)
+    chk.traces += len(recs)
+    return results
+
+
+def table_phase(chk, b, wd, prefix, per_route, tier, seed):
+    """The symbol table across steps and the roll-back of a rejected step (spec/ReplTab.tla)."""
+    cfgs = [("tab", replsess.tab_config(seed, tier))]
+    if tier != "quick":
+        cfgs.append(("tab2", replsess.tab_config_deep(seed)))
+    d = vlib.scratch("c13tab")
+    jobs = []
+    for name, cfg in cfgs:
+        path = os.path.join(d, name + ".json")
+        vlib.write_ndjson(path, [cfg])
+        jobs.append((name, "ReplTab", path, vlib.NCPU if tier != "quick" else 6))
+    small = os.path.join(d, "small.json")
+    vlib.write_ndjson(small, [dict(cfgs[0][1], orders=cfgs[0][1]["orders"][:1])])
+    jobs += [("byname", "ReplTabByName", small, 2), ("retag", "ReplTabRetag", small, 2)]
+    with concurrent.futures.ThreadPoolExecutor(max_workers=len(jobs)) as ex:
+        rs = list(ex.map(lambda j: vlib.tlc("ReplTab", j[1], workers=j[3], env={"TABCFG": j[2]}, timeout=1500), jobs))
+    sess = []
+    for (name, cfgname, _, _), r in zip(jobs, rs):
+        chk.add_tlc("%s[%s]" % (cfgname, name), r)
+        if cfgname == "ReplTab":
+            if r.violated:
+                chk.violation("ReplTab.tla violates %s" % r.violated, r.trace_text, key={"model": "ReplTab", "inv": r.violated})
+                continue
+            got = [json.loads(l[6:]) for l in r.printed if isinstance(l, str) and l.startswith("TSESS ")]
+            if not got:
+                raise vlib.MachineryError("ReplTab.tla exported no session")
+            sess += [(name, x) for x in got]
+        elif r.violated != "TableAsWithout":
+            # negative control: the wrong roll-back designs must be refuted, else the invariant says nothing
+            raise vlib.MachineryError("ReplTab.tla: the wrong roll-back design %s is not refuted (%s)" % (name, r.violated))
+    recs, classes = [], chk.extra.setdefault("table_rejected_steps_by_overlap", {})
+    for n, (name, x) in enumerate(sess):
+        verbose = (n % 6 == 5)
+        text, exp, shapes = replsess.render_tab(x, verbose=verbose)
+        for it in x["hist"]:
+            if not it["ok"]:
+                classes[it["cls"]] = classes.get(it["cls"], 0) + 1
+        recs.append({"id": replsess.tab_sig(x), "text": text, "exp": exp, "shapes": shapes,
+                     "label": "loop table" + (" verbose" if verbose else ""), "key": {"family": "table", "verbose": verbose},
+                     "nontrivial": x["nbad"] > 0})
+    chk.extra["table_sessions"] = len(recs)
+    if len(set(r["id"] for r in recs)) != len(recs):
+        raise vlib.MachineryError("ReplTab sessions: names are not distinct")
+    run_sessions(chk, b, wd, prefix, per_route, "tab", recs)
+    if recs and len(chk.samples) < 6:
+        r0 = recs[len(recs) // 2]
+        chk.sample({"table_session": r0["id"], "input": r0["text"][-1200:], "specified_projection": [list(t) for t in r0["exp"]][-12:]})
 
 
 ECHO_SESSION = """#include "axllib"
